@@ -1,5 +1,5 @@
 (* C04 — no false convergence: empty diffs in both directions imply equal content. *)
-From MST Require Import Base TreeM Diff Spec TreeInv DiffTrees TreeRL DiffTop.
+From MST Require Import Base TreeM Diff Spec TreeInv Intervals DiffTrees TreeRL DiffTop DiffMore.
 
 Theorem C04_no_false_convergence :
   forall (digest V : Type) (H : list (tok digest V) -> digest) (lvl_of : N -> N),
@@ -13,3 +13,16 @@ Theorem C04_no_false_convergence :
   final_map V opsA = final_map V opsB.
 Proof. exact DiffTop.C04_no_false_convergence. Qed.
 Print Assumptions C04_no_false_convergence.
+
+(* second clause: every reported range starts at a key the peer really holds (so fetching a non-empty diff
+   always transfers at least one key) *)
+Theorem C04_ranges_start_at_peer_keys :
+  forall (digest V : Type) (H : list (tok digest V) -> digest) (lvl_of : N -> N),
+  (forall k : N, lvl_of k < 255) ->
+  forall deqb : digest -> digest -> bool, (forall a b : digest, deqb a b = true <-> a = b) ->
+  forall (opsL opsP : list (op V)) (tL tP : mst digest V),
+  run digest V H lvl_of opsL = Ok tL -> run digest V H lvl_of opsP = Ok tP ->
+  exists rs, tree_diff digest V H deqb tL tP = Ok rs /\
+    Forall (fun r => In (ds r) (keys (final_map V opsP)) /\ ds r <= de r) rs.
+Proof. exact DiffMore.C04_starts. Qed.
+Print Assumptions C04_ranges_start_at_peer_keys.
